@@ -207,6 +207,11 @@ func genC14(t *core.Tape, tier string) *Scenario {
 		if byCancel {
 			cancelAt = t.Choose(len(p.CProg)+1, "cancel.at")
 			p.CProg = append(p.CProg[:cancelAt:cancelAt], append([]COp{{Op: "cancel"}}, p.CProg[cancelAt:]...)...)
+			if cancelAt > 0 && cancelAt == len(p.CProg)-1 && t.Bool(1, 2, "abandon.after.cancel") {
+				// Send, ..., cancel() - and nothing more, not even CloseAndReceive
+				p.Abandon = true
+				sc.Notes["abandoned_after_cancel"]++
+			}
 		}
 	case KServer:
 		p.CProg = []COp{{Op: "recvall"}}
